@@ -1,0 +1,28 @@
+//go:build verif
+// +build verif
+
+package remote
+
+import (
+	"time"
+
+	proxyv1alpha1 "github.com/kubewharf/kubegateway/pkg/apis/proxy/v1alpha1"
+)
+
+// Verification hooks (build tag "verif"): thin exports only, no behaviour.
+
+// VerifReconcileOnce runs one synchronous round of the periodic reconcile.
+func VerifReconcileOnce(r Reconcile) { r.(*reconcile).reconcile() }
+
+// VerifNewAcquireResult builds the value the counter worker hands to SetLimit.
+func VerifNewAcquireResult(request *proxyv1alpha1.RateLimitAcquireRequest, result *proxyv1alpha1.RateLimitAcquireResult, requestTime int64) *AcquireResult {
+	return &AcquireResult{request: request, result: result, requestTime: requestTime}
+}
+
+// VerifSetWaitAcquireTimeout changes how long TryAcquire waits for the next
+// answer of the limiter server (300 ms by default) and returns the old value.
+func VerifSetWaitAcquireTimeout(d time.Duration) time.Duration {
+	old := waitAcquireTimeout
+	waitAcquireTimeout = d
+	return old
+}
